@@ -40,6 +40,8 @@ def matches_known(prop, fail, known):
             continue
         if k.get('clause_contains') and k['clause_contains'] not in fail.get('clause', ''):
             continue
+        if k.get('clause_any') and not any(c in fail.get('clause', '') for c in k['clause_any']):
+            continue
         if k.get('harness') and k['harness'] != fail.get('harness'):
             continue
         if k.get('harness_contains') and k['harness_contains'] not in (fail.get('harness') or ''):
@@ -111,6 +113,7 @@ def _decide(args, P, seed, scratch, t0):
     results.sort(key=lambda r: units.index(r.unit))
     obligations = 0
     discharged = 0
+    known_not_counted = 0
     fn_list = []
     rule_apps = 0
     assumptions = set()
@@ -118,6 +121,12 @@ def _decide(args, P, seed, scratch, t0):
     samples = []
     for r in results:
         base = load_baseline(r.unit)
+        # obligations that fail on the pinned tree because of a recorded, unrepaired defect (known_findings.json, open):
+        # reported as KNOWN-FINDING, never counted as discharged, and not an obstacle to the baseline
+        kf = [fl for fl in r.failures if fl['in_extracted_fn'] and matches_known(prop, fl, known)]
+        r.failures = [fl for fl in r.failures if not any(fl is x for x in kf)]
+        failures += kf
+        kf_fns = len(set((fl['fn'], fl.get('gen_offset')) for fl in kf))
         if args.update_baseline and not r.failures and not r.undecided:
             os.makedirs(os.path.join(VERIF, 'baseline'), exist_ok=True)
             ok_fns = sorted(k for k, v in r.fn_breakdown.items() if v.get('success'))
@@ -194,7 +203,8 @@ def _decide(args, P, seed, scratch, t0):
                         continue
                     fl = dict(fl, failing_input=cex)
                 failures.append(fl)
-        n_ob = r.verified + r.errors
+        n_ob = r.verified + max(0, r.errors - kf_fns)
+        known_not_counted += min(kf_fns, r.errors)
         obligations += n_ob
         discharged += r.verified
         smt_ms += r.smt_ms
@@ -355,6 +365,7 @@ def _decide(args, P, seed, scratch, t0):
         samples=samples + (kani_ev['samples'] if kani_ev else []),
         undecided=undecided,
         known_findings_hit=[k.get('what') for k, _ in known_hit],
+        known_finding_obligations_not_counted=known_not_counted,
         scans=[dict(name=x['name'], sites=x['sites'], findings=len(x['findings'])) for x in scan_results],
         proof_stability=stability,
         exploration_not_counted=exploration,
